@@ -191,6 +191,36 @@ def run(tier, v):
         if got != want:
             v.violation({"front_end": "analyze_pcap, " + ("parallel (1 worker, queue 64)" if crate.endswith("_par") else "sequential"), "analyzer": crate.split("_")[0], "scenario": m["scen"],
                          "configured_capacity": m["cap"], "schedule": m["sched"], "predicted_per_packet (table of that capacity)": m["outs"], "reported": got})
+    # ---- what a capture front end holds while it works: one endless connection captured with n and with 4n segments, each capture
+    # analysed by analyze_pcap of every analyzer (results taken from the channel as they arrive), the live heap sampled meanwhile;
+    # TLC judges the pairs of peaks (TV_C11F, Resources!FrontEndOk)
+    nbase = 6000 if tier == "thorough" else 2000
+    glines, gmeta = [], []
+    for crate in ("tls", "http", "tcp", "uni"):
+        for kind in ("tls_appdata", "http_body"):
+            for n_ in (nbase, 4 * nbase):
+                gmeta.append((crate, kind, n_))
+                glines.append({"id": len(glines), "crate": crate, "gen_capture": {"n": n_, "len": 1400, "kind": kind}, "matcher": crate in ("tcp", "uni"), "cfg": {}, "frames": [], "cap": 16})
+    greq, gout = os.path.join(wd, "capture.req"), os.path.join(wd, "capture.out")
+    vlib.write_ndjson(greq, glines)
+    vlib.run_hv("ana", greq, gout, timeout=1800, env={"HV_PCAP_DIR": os.path.join(wd, "pcap")})
+    peaks = {}
+    for o in vlib.read_ndjson(gout):
+        crate, kind, n_ = gmeta[o["id"]]
+        if "panic" in o or o.get("hung") or o.get("skipped") or o.get("ok") is not True:
+            v.violation({"front_end": "analyze_pcap (%s)" % crate, "capture": "one connection, %d segments of 1400 octets (%s)" % (n_, kind), "observed": {k: o.get(k) for k in ("panic", "hung", "skipped", "ok", "ctor_error")}})
+            continue
+        peaks[(crate, kind, n_)] = o["peak"]
+    ftrace = os.path.join(wd, "capture.trace.ndjson")
+    frows = [{"crate": c, "kind": k, "n_small": nbase, "n_big": 4 * nbase, "peak_small": peaks[(c, k, nbase)], "peak_big": peaks[(c, k, 4 * nbase)]}
+             for c in ("tls", "http", "tcp", "uni") for k in ("tls_appdata", "http_body") if (c, k, nbase) in peaks and (c, k, 4 * nbase) in peaks]
+    vlib.write_ndjson(ftrace, frows)
+    r5 = vlib.tlc("TV_C11F", pid=PID, workers=1, env={"TRACE": ftrace}, timeout=600, coverage=False)
+    for b in r5.lines.get("BAD", []):
+        v.violation({"front_end": "analyze_pcap (%s)" % b["crate"], "capture": "one endless connection (%s), segments of 1400 octets" % b["kind"],
+                     "peak_live_heap_while_analysing_%d_segments" % b["n_small"]: b["peak_small"], "peak_live_heap_while_analysing_%d_segments" % b["n_big"]: b["peak_big"],
+                     "observed": "what the front end holds grows with the length of the capture"})
+    n_fe += len(frows)
     return v.finish("exploration", {
         "evaluations": n_pk, "distinct_nontrivial": len(scen),
         "rule": "%d scenarios (analyzer x traffic kind x direction x {1 connection at capacity 1, capacity-many connections}) of up to %d segments of 1400 bytes; every packet measured, events recorded for the first 64 packets, "
